@@ -434,6 +434,36 @@ def judge(rep, sc, seed, r, outs):
         rep.corr_cases += 1
 
 
+def reopen_after_dead_peer(rep, T):
+    """life 1 ends with the heartbeat checker declaring the peer dead (an operation raises, the connection closes itself);
+    the same object is opened again: the new life starts fresh - like a first one it survives a single quiet check interval
+    and keeps working when traffic resumes (no stale missed-heartbeat count, no stale error).  Uses C12's simulator (the
+    real Connection on a virtual clock with a scripted broker)."""
+    from harness.props import c12
+    sim = c12.Sim(T, inject=False)
+    half = T                                  # the check interval T/2 in the simulator's half-second units
+    hb_frame = c12.HB_BYTES.hex()
+    steps = [('open',), ('adv', 3 * half), ('probe',),            # silence: declared dead by 1.5 T, the probe raises and closes
+             ('open',), ('adv', half + 1),                          # one quiet interval of the new life
+             ('bytes', hb_frame), ('adv', 1), ('bytes', hb_frame), ('probe',)]
+    outcomes = []
+    orig_on_probe = sim.monitor.on_probe
+    sim.monitor.on_probe = lambda outcome, expect_dead: (outcomes.append(outcome), orig_on_probe(outcome, expect_dead))[1]
+    for ev in steps:
+        sim.do(ev)
+    replay = {'kind': 'reopen-after-dead-peer', 'T': T}
+    if len(outcomes) != 2 or outcomes[0] == 'ok':
+        rep.violation('C08/reopen-after-dead/first-life-not-ended', 'T=%s: probes gave %r' % (T, outcomes), replay)
+    elif outcomes[1] != 'ok' or not sim.conn.is_open:
+        rep.violation('C08/reopened-connection-not-fresh/stale-heartbeat-state',
+                      'T=%s: after a life that ended with a dead-peer verdict the re-opened connection was given up after one quiet check '
+                      'interval (a fresh connection survives it): probe %r, is_open=%s, errors %r' % (
+                          T, outcomes[1], sim.conn.is_open, [str(e)[:40] for e in sim.conn.exceptions][:2]), replay)
+    for t in list(sim.timers):
+        t.cancel()
+    rep.case(('reopen-after-dead-peer', T), True, sample=replay)
+
+
 def check(rep):
     rng = random.Random(common.seed() * 6151 + 8)
     thorough = rep.tier == 'thorough'
@@ -446,6 +476,8 @@ def check(rep):
         'the reader thread leaves its loop within the join time-out once the run flag is cleared (model step join-reader)',
         'open() is only called on a connection that is not open (the histories the property talks about)',
     ]
+    for T in (2, 4, 10, 60):
+        reopen_after_dead_peer(rep, T)
     jobs = []
     import json
     cdir = common.CORPUS / 'C08'
@@ -507,6 +539,11 @@ def check(rep):
 
 
 def replay(data):
+    if data.get('replay', {}).get('kind') == 'reopen-after-dead-peer':
+        rep = common.Report('C08', 'quick')
+        reopen_after_dead_peer(rep, data['replay']['T'])
+        print('VIOLATION reproduced' if rep.violations else 'property holds on this input')
+        return 1 if rep.violations else 0
     d = data['replay']
     rep = common.Report('C08', 'quick')
     r = history_one((d['scenario'], d['seed']))
